@@ -69,14 +69,14 @@ package prover
 // ---------------------------------------------------------------------------------------
 
 //@ func (ProofRound) DefineGadget
-//@   property C01 C02 C12
+//@   property C01 C02 C12 C07
 //@   returns Variable
 //@   ensures api.ok == (ok0 && isbool(gadget.Direction))
 //@   ensures isbool(gadget.Direction) ==> result == merkle.step(gadget.Direction, gadget.Hash, gadget.Sibling)
 //@   ensures inField(result)
 
 //@ func (VerifyProof) DefineGadget
-//@   property C01 C02 C12
+//@   property C01 C02 C12 C07
 //@   returns Variable
 //@   requires len(gadget.Proof) == len(gadget.Path) + 1
 //@   let k = len(gadget.Path)
@@ -92,7 +92,7 @@ package prover
 //@     decreases len(gadget.Proof) - i
 
 //@ func (InsertionRound) DefineGadget
-//@   property C01 C12
+//@   property C01 C12 C07
 //@   returns Variable
 //@   requires 0 <= gadget.Depth && gadget.Depth <= 32 && len(gadget.Proof) == gadget.Depth
 //@   let D = gadget.Depth
@@ -108,7 +108,7 @@ package prover
 //@   assert@return[A] api.ok ==> (forall t :: 0 <= t && t < D ==> currentPath[t] == bits.bit(gadget.Index, t))
 
 //@ func (InsertionProof) DefineGadget
-//@   property C01 C12
+//@   property C01 C12 C07
 //@   returns Variable
 //@   requires 0 <= gadget.BatchSize && len(gadget.IdComms) == gadget.BatchSize && len(gadget.MerkleProofs) == gadget.BatchSize
 //@   requires forall j :: 0 <= j && j < gadget.BatchSize ==> len(gadget.MerkleProofs[j]) == gadget.Depth
@@ -132,7 +132,7 @@ package prover
 //@     decreases gadget.BatchSize - i
 
 //@ func (DeletionRound) DefineGadget
-//@   property C02 C12
+//@   property C02 C12 C07
 //@   returns Variable
 //@   requires 0 <= gadget.Depth && gadget.Depth <= 31 && len(gadget.MerkleProofs) == gadget.Depth
 //@   let D = gadget.Depth
@@ -151,7 +151,7 @@ package prover
 //@   assert@def:currentPath[A] api.ok ==> (forall t :: 0 <= t && t <= D ==> currentPath[t] == bits.bit(gadget.Index, t))
 
 //@ func (DeletionProof) DefineGadget
-//@   property C02 C12
+//@   property C02 C12 C07
 //@   returns Variable
 //@   requires 0 <= gadget.BatchSize && len(gadget.IdComms) == gadget.BatchSize && len(gadget.MerkleProofs) == gadget.BatchSize
 //@   requires len(gadget.DeletionIndices) == gadget.BatchSize
@@ -179,7 +179,7 @@ package prover
 // ---------------------------------------------------------------------------------------
 
 //@ func (*InsertionMbuCircuit) Define
-//@   property C03 C01 C12
+//@   property C03 C01 C12 C07
 //@   requires circuit.BatchSize <= 4294967295
 //@   requires circuit.BatchSize >= 0 && len(circuit.IdComms) == circuit.BatchSize && len(circuit.MerkleProofs) == circuit.BatchSize
 //@   requires forall j :: 0 <= j && j < circuit.BatchSize ==> len(circuit.MerkleProofs[j]) == circuit.Depth
@@ -212,7 +212,7 @@ package prover
 //@   assert@def:hash api.ok ==> pack.beval(hash, 256) == pack.beval(keccak.digest(bits, n, 1), 256)
 
 //@ func (*DeletionMbuCircuit) Define
-//@   property C03 C02 C12
+//@   property C03 C02 C12 C07
 //@   requires circuit.BatchSize <= 4294967295
 //@   requires circuit.BatchSize >= 0 && len(circuit.IdComms) == circuit.BatchSize && len(circuit.MerkleProofs) == circuit.BatchSize
 //@   requires len(circuit.DeletionIndices) == circuit.BatchSize
@@ -286,17 +286,17 @@ package prover
 // ---------------------------------------------------------------------------------------
 
 //@ func fromHex
-//@   property C10 C16 C13
+//@   property C10 C16 C13 C19
 //@   modifies i
 //@   ensures (result == nil) == str.isNum(s)
 //@   ensures str.isNum(s) ==> deref(i) == str.num(s)
 
 //@ func toHex
-//@   property C10 C16 C13
+//@   property C10 C16 C13 C19
 //@   ensures deref(i) >= 0 ==> result == str.concat("0x", str.hex16(deref(i)))
 
 //@ func (*Proof) MarshalJSON
-//@   property C10 C13 C09
+//@   property C10 C13 C09 C19
 //@   cover result1 == nil
 //@   let raw = p.Proof.raw
 //@   let coord0 = str.concat("0x", str.hex16(bytes.beIntFrom(raw, 0, 32)))
@@ -319,7 +319,7 @@ package prover
 //@   assert@loop1 proofHexNumbers[7] == coord7
 
 //@ func (*Proof) UnmarshalJSON
-//@   property C10
+//@   property C10 C19
 //@   modifies p.Proof
 //@   cover result == nil
 //@   ensures result == nil ==> (forall i :: 0 <= i && i < 8 ==> str.isNum(json.coord(data, i)))
